@@ -261,6 +261,38 @@ def transformer_rules(check, P):
     return n
 
 
+def point_vector_rule(check, P, rid="R4"):
+    """Point.from_vector returns exactly the first three components: a transformed point is not altered on its way
+    to the formatter (the Transform.apply contract the command-wide checks use assumes this)."""
+    from ..interp import Interp
+    I = Interp(P)
+    f = P.func("Point.from_vector")
+    ci = P.cls("Point")
+    vs = [Poly.sym(f"v{i}") for i in range(4)]
+    n = good = 0
+
+    def entry(I_, _):
+        I_.frames = [Frame(None, f.module, {}, qualname="<entry>")]
+        try:
+            return I_.call_function(f, [ClassV(ci), ArrV(tuple(Num(v) for v in vs))], {}, f.node)
+        finally:
+            I_.frames = []
+    for path in I.explore(lambda I_: None, entry, max_dev=None, max_paths=50):
+        n += 1
+        r = path.value if path.outcome == "return" else None
+        items = list(r.items) if isinstance(r, NT) and r.cls == "Point" else None
+        if items is not None and len(items) == 3 and all(isinstance(x, Num) and x.p == v for x, v in zip(items, vs)):
+            good += 1
+            check.ok(rid, "Point.from_vector(v) == Point(v[0], v[1], v[2]) exactly")
+        elif path.outcome != "return":
+            check.violation(rid, "from_vector:raises", f"Point.from_vector raises {path.value.cls} on a four-component vector", [decisions_text(path)])
+        else:
+            check.violation(rid, "from_vector:not-exact", f"Point.from_vector(v) returns {I.tag(r)[:160]}; expected exactly Point(v[0], v[1], v[2]): "
+                            "the components are altered (rounded, reordered, dropped) before they reach the formatter", [decisions_text(path)])
+    check.floor(n >= 1, "C04: Point.from_vector has no abstract path")
+    return n
+
+
 def _norm(t):
     import re
     return re.sub(r"#\d+", "", t)
@@ -497,6 +529,14 @@ def run(check, repo, tier):
     c08.check_parameters(_rm, cr.program)
     n4 = transformer_rules(check, cr.program)
     n4 += constructor_rules(check, cr.program)
+    n4 += point_vector_rule(check, cr.program, "R4")
+    # which transform is active: the save / restore / context-manager rules of C13 (a stale or aliased frame moves every later word)
+    check.rule("R8", "the active transform is the one the API history selects: named states are snapshots, restores follow stack order, "
+                     "transform context managers put back transform and stack on every exit, also nested (rules R1-R3 of C13)")
+    from . import c13
+    _rm13 = c13._Remap(check, {"R1": "R8", "R2": "R8", "R3": "R8"})
+    _rm13.floor = lambda cond, message: check.floor(cond, message.replace("C13", "C04<-C13"))
+    n4 += c13.sequences_on_transformer(_rm13, cr.program) + c13.context_managers(_rm13, cr.program)
     check.analysed = dict(cr.stats, transformer_paths=n4, gcodecore=core.stats)
     check.coverage["exhaustive"] = True
     check.explanation = (
